@@ -7,7 +7,7 @@ cd $WT || exit 9
 git checkout -- . ; git apply $O/m$N.diff || { echo "CONFIRM apply=FAIL"; exit 1; }
 make -j4 >/dev/null 2>&1 || { echo "CONFIRM build=FAIL"; git checkout -- .; exit 1; }
 rundemo() {
-	if [ -f $O/m${N}_demo.sh ]; then WT=$WT sh $O/m${N}_demo.sh; return $?; fi
+	if [ -f $O/m${N}_demo.sh ]; then WT=$WT bash $O/m${N}_demo.sh; return $?; fi
 	cc -O0 -g -w -I$WT/lib -I$WT -o /tmp/mut/${ID}_m${N}_demo $O/m${N}_demo.c $WT/lib/libext2fs.a $WT/lib/libsupport.a $WT/lib/libe2p.a $WT/lib/libext2fs.a $WT/lib/libcom_err.a -lpthread || return 99
 	WT=$WT /tmp/mut/${ID}_m${N}_demo
 }
